@@ -54,6 +54,11 @@ CHECKS = {
    note="Trusted: simrt + instrumenter; the facade file is overlaid at build time (add-only, nothing committed to /repo). The hand-over instant of an item is only known to lie between the worker's wait and get records; the oracles use only what is certain under that uncertainty. cenkalti/backoff jitter is real (seeded per run). Sampling only.",
    technique=TECH+"history oracles over recorded queue operations against a reference notion of pending/held items; scripted outcome fault sequences for backoff",
    ref="DESIGN.md §7 C09"),
+ "C10": dict(level="fault_enumeration",
+   text="For every sampled operation history and marshaler stack (protobuf, zstd on both sides of the size threshold, AES-GCM, both stackings) over the real bolt backing store on a real bbolt file: one execution snapshots the db file before and after EVERY backing-store call and at EVERY bbolt failpoint inside every commit; each snapshot is reopened by a fresh stack and must equal, field by field, the in-memory contents before or after the operation in flight; then EVERY (error point, occurrence) - store call failing before/after applying, bbolt lackOfDiskSpace, beforeWriteMetaError, resizeFileError, mapError - is injected in its own execution (operation must fail, memory and watcher must not see it, disk must equal memory afterwards); plus Load failures at several record indices (retried without loss or duplication), wrong key and tampered records under encryption, post-restart operations on the restarted and the surviving state, and concurrent clients fighting over one resource (final disk == memory).",
+   note="Trusted: simrt + instrumenter; bbolt runs for real on tmpfs scratch files, its gofail markers turned into hook calls in a scratch copy of the module (nothing committed to /repo); a managed bbolt transaction is one atomic scheduler step. Crash model = PROCESS crash (page cache survives): lost, torn or reordered unsynced writes (power loss) are not modelled because bbolt exposes no write/fsync seam. In the quick tier the error-injection enumeration is sampled down to 12 per history when larger (probes say which); the thorough tier runs all.",
+   technique=TECH+"per-history enumeration of crash snapshots at every store call and bbolt failpoint and of error injections, reopened state compared with the in-memory state (model)",
+   ref="DESIGN.md §7 C10"),
  "C11": dict(level="exploration",
    text="Seeded differential execution: the same operation sequence (all options: owners, expected phases, stale versions, label/id selectors, bookmarks, tails, aggregated, skip-unmarshal, native Teardown RPCs and an old server answering Unimplemented) is applied step by step to a direct state and to client adapter -> simulated transport -> server -> state; results, error classes, written-back metadata (checked against the remote store) and, at quiescence, the watch event sequences must agree, and the sticky fallback must stop calling the missing RPC. A table of hand-crafted malformed wire requests is fired at the server handlers: a handler panic is a server crash.",
    note="Trusted: simrt + instrumenter; the in-process transport replaces gRPC/HTTP2 (it marshals/unmarshals every message with vtproto and maps handler errors through status as grpc-go does). Tombstones travel as resources with empty spec - treated as equal. Commit times are compared only inside the remote world. Two genuine server crashes found here were repaired in /repo. Sampling of sequences; the malformed-request table is fixed, not exhaustive.",
